@@ -269,7 +269,9 @@ async fn pump_output_stream(
 
         let (preview, _truncated, _used) =
             super::logs::truncate_utf8(chunk, max_preview_bytes.min(super::OUTPUT_EVENT_MAX_BYTES));
-        if preview.is_empty() {
+        // A read whose preview is empty (limit 0, limit below the first character, undecodable
+        // start) still stored bytes: keep the frame so that the ranges stay gap-free.
+        if preview.is_empty() && artifacts.is_none() {
             continue;
         }
 
